@@ -79,3 +79,23 @@ Proof. exact checker_silent_on_model. Qed.
 Print Assumptions C10_checker_silent_on_model.
 (* The nil-transaction-reported-pending answer (never produced by ethclient, which maps a null
    result to NotFound) is the model's only CPanic; covered by C10_refuse (nothing submitted). *)
+
+(* ---- composition with C08 (proofs/Compose_chain.v) -----------------------------------------------------------
+   In the theorems above the answer of TransactionByHash is an oracle value.  In the combined machine of
+   proofs/Compose_chain.v ([crun cl ops], operations OSend / OConf / ORestart as in model/EvmSend.v plus
+   OCancel) it is given by the history of the sender itself: a cancellation names, by position, one of the
+   transactions this sender's Send calls got accepted so far, and the node answers with that transaction
+   (its Nonce() is the nonce it was submitted with; fee fields, pending flag, tip suggestion, signing and
+   submission answers stay free).  Frame fact read off evmclient.go and not covered by a correspondence run
+   of its own: CancelTx holds the client mutex, never assigns c.nonce and never touches the monitor's
+   confirmed nonce.  Non-vacuity: Compose_chain.ex_chain. *)
+From MevVerif Require model.EvmSend proofs.Compose_chain.
+
+(* C10 o C08.  Every replacement that reaches the node carries the nonce of a transaction that an earlier
+   Send of this very history got accepted -- it opens no new nonce -- and has the no-op shape of C10_shape. *)
+Theorem C10_cancel_reuses_submitted_nonce : forall cl ops pre t b post,
+  Compose_chain.crun cl ops = pre ++ Compose_chain.ECancel (CSubmit t b) :: post ->
+  (exists n, In n (EvmSend.accepted (Compose_chain.send_events pre)) /\ x_nonce t = Z.of_N n) /\
+  x_chain t = chain cl /\ x_to t = owner cl /\ x_value t = 0 /\ x_data t = [] /\ x_gas t = 21000.
+Proof. exact Compose_chain.cancel_reuses_submitted_nonce. Qed.
+Print Assumptions C10_cancel_reuses_submitted_nonce.
